@@ -12,7 +12,7 @@ import ast
 import os
 import sys
 
-REPO = os.environ.get('PLACEMENT_REPO', '/repo')
+REPO = os.environ.get('VERIF_REPO', '/repo')
 sys.path.insert(0, REPO)
 
 ENTRY = {'replace_all', 'reshape', 'set_inventory', 'add_inventory', 'update_inventory', 'delete_inventory',
